@@ -113,6 +113,10 @@ fn created_output(tx: &Create) -> Option<(ContractId, Bytes32)> {
 fn obs_create(params: &ConsensusParameters, code: &[u8], salt: Salt, slots: &[StorageSlot]) -> Value {
     let tx = build_create(code, salt, slots, None);
     let mut o = Map::new();
+    // every field is always present (the trace specification reads them unconditionally)
+    for k in ["meta_id", "meta_code_root", "meta_state_root", "computed_id", "computed_code_root", "computed_state_root", "out_id", "out_state_root"] {
+        o.insert(k.into(), json!("(none)"));
+    }
     match tx.metadata() {
         Some(m) => {
             o.insert("meta_id".into(), json!(hx(m.body.contract_id)));
@@ -175,11 +179,18 @@ impl World {
     fn obs_deploy(&mut self, code: &[u8], salt: Salt, slots: &[StorageSlot], out: Option<(ContractId, Bytes32)>, via: &str) -> Value {
         let tx = build_create(code, salt, slots, out);
         let mut o = Map::new();
+        o.insert("out_id".into(), json!("(none)"));
+        o.insert("out_state_root".into(), json!("(none)"));
+        o.insert("exists".into(), json!(false));
+        o.insert("stored_code".into(), json!("(none)"));
+        o.insert("state_added".into(), json!([]));
         let before = Self::state_set(self.storage());
         let checked = match tx.clone().into_checked(Default::default(), &self.params) {
             Ok(c) => c,
             Err(e) => {
-                return json!({"ok": false, "err": format!("check:{}", err_name(e))});
+                o.insert("ok".into(), json!(false));
+                o.insert("err".into(), json!(format!("check:{}", err_name(e))));
+                return Value::Object(o);
             }
         };
         let executed: Result<Create, String> = if via == "transact" {
@@ -209,7 +220,7 @@ impl World {
             let st = self.storage();
             o.insert("exists".into(), json!(st.storage_contract_exists(&id).unwrap_or(false)));
             let stored = st.storage_contract(&id).ok().flatten().map(|c| hx(c.as_ref().as_ref() as &[u8]));
-            o.insert("stored_code".into(), match stored { Some(s) => json!(s), None => Value::Null });
+            o.insert("stored_code".into(), match stored { Some(s) => json!(s), None => json!("(none)") }); // (the trace reader has no null)
         }
         let after = Self::state_set(self.storage());
         let added: Vec<Value> = after.difference(&before).map(|(c, k, v)| json!([c, k, v])).collect();
@@ -236,21 +247,22 @@ impl World {
         let tx: Script = b.finalize();
         let checked = match tx.into_checked(Default::default(), &self.params) {
             Ok(c) => c,
-            Err(e) => return json!({"ok": false, "err": format!("check:{}", err_name(e)), "data": Value::Null}),
+            Err(e) => return json!({"ok": false, "err": format!("check:{}", err_name(e)), "data": "(none)"}),
         };
         let receipts = self.client.transact(checked).to_vec();
-        let mut data = Value::Null;
+        let mut data = json!("(none)");
+        let mut got = false;
         let mut err = String::new();
         for r in &receipts {
             match r {
-                Receipt::ReturnData { data: Some(d), .. } => data = json!(hx(d.as_ref() as &[u8])),
+                Receipt::ReturnData { data: Some(d), .. } => { data = json!(hx(d.as_ref() as &[u8])); got = true; }
                 Receipt::Panic { reason, .. } => err = format!("{:?}", reason.reason()),
                 Receipt::Revert { .. } => err = "revert".into(),
                 _ => {}
             }
         }
         if receipts.is_empty() { err = "no-receipts".into(); }
-        json!({"ok": !data.is_null() && err.is_empty(), "err": err, "data": data})
+        json!({"ok": got && err.is_empty(), "err": err, "data": data})
     }
 }
 
